@@ -11,10 +11,13 @@
     clippy::all
 )]
 
+pub mod gen;
 pub mod io;
 pub mod out;
+pub mod probe;
 pub mod refcodec;
 pub mod rng;
+pub mod sim;
 pub mod trace;
 pub mod util;
 
